@@ -7,6 +7,7 @@ import scipy.sparse
 from scipy.sparse import load_npz, save_npz, spmatrix
 
 from ._audit import Node
+from ._general import unsupported_get_state
 from ._protocol import PROTOCOL
 from ._utils import LoadContext, SaveContext, get_module, get_type_name
 
@@ -72,6 +73,10 @@ GET_STATE_DISPATCH_FUNCTIONS = [
     # use 'spmatrix' to check if a matrix is a sparse matrix because that is
     # what scipy.sparse.issparse checks
     (spmatrix, sparse_matrix_get_state),
+    # DOK sparse arrays are dict subclasses: they would be persisted as a plain
+    # dict of their entries, without shape and dtype (an empty one could be
+    # dumped but not loaded). save_npz does not support the format either.
+    (scipy.sparse.dok_array, unsupported_get_state),
 ]
 # tuples of type and function that creates the instance of that type
 NODE_TYPE_MAPPING = {
